@@ -87,10 +87,55 @@ class E3:
             cons = [eq(cf["CS"], cf["G"])]
             desc = "at the %s call `%s` in %s (a panic here unwinds): current_size equals the sum of recorded sizes" % (c.user_kind, c.callee, fr.body.path)
             e3.check("C16", key + ":CS=G", st, cons, desc, c.loc)
+            l2l = ip_.gset(st, "l2l")
+            e3.rec("C16", key + ":no-link-into-unowned-table", not l2l,
+                   "at the %s call `%s` in %s: no link of the cache's seal/entries points into a table the cache does not own yet "
+                   "(an unwind would free that table and leave the link dangling)" % (c.user_kind, c.callee, fr.body.path), c.loc)
+            unl = ip_.gset(st, "unlinked")
+            e3.rec("C16", key + ":no-unlinked-entry", not unl,
+                   "at the %s call `%s` in %s: every entry inserted into the cache's table is already linked into its list"
+                   % (c.user_kind, c.callee, fr.body.path), c.loc)
+            det = e3.detached(ip_, st)
+            e3.rec("C16", key + ":table-not-detached", not det,
+                   "at the %s call `%s` in %s: the table that backs the linked entries is still the cache's table (not handed to a "
+                   "local whose destructor would free it on unwind)%s" % (c.user_kind, c.callee, fr.body.path, (": " + det) if det else ""), c.loc)
             if c.user_kind == "closure" and closure_bound:
                 e3.check("C16", key + ":CS<=MS", st, [le(cf["CS"], cf["MS"])],
                          "at the user closure call in %s: the memory bound holds (a panic in the closure leaves it intact)" % fr.body.path, c.loc)
         ip.hooks["user_call"] = on_user_call
+
+    def detached(self, ip, st):
+        """the original table (tid 0) is no longer installed in the cache while a local still holds its entries"""
+        cf = self.cache_fields(st)
+        if cf is None or cf["tid"] == ("tid", 0):
+            return None
+        for oid, v in st.store.items():
+            if not (isinstance(v, tuple) and v and v[0] == "struct"):
+                continue
+            if oid[0] != "L":
+                continue
+            for tv in self._tables_in(v, 0):
+                if tv[1] == RAWTABLE and tv[2].get("#tid") == ("tid", 0) and is_int(tv[2].get("N")) and not st.num.entails(eq(tv[2]["N"][1], 0)):
+                    return "local _%d holds the original table with entries" % oid[2]
+                if tv[1] in ("hashbrown::raw::RawIntoIter", "hashbrown::raw::RawDrain") and tv[2].get("#from") == ("tid", 0) \
+                        and is_int(tv[2].get("Rn")) and not st.num.entails(eq(tv[2]["Rn"][1], 0)):
+                    return "local _%d iterates the original table and still holds entries" % oid[2]
+        return None
+
+    def _tables_in(self, v, depth):
+        out = []
+        if depth > 4 or not isinstance(v, tuple):
+            return out
+        if v[0] == "struct":
+            if v[1] in (RAWTABLE, "hashbrown::raw::RawIntoIter", "hashbrown::raw::RawDrain"):
+                return [v]
+            for x in v[2].values():
+                out += self._tables_in(x, depth + 1)
+        elif v[0] == "enum":
+            for pay in v[3].values():
+                for x in pay.values():
+                    out += self._tables_in(x, depth + 1)
+        return out
 
     # ------------------------------------------------------------------ running
     def run_ep(self, b, st, args, ip):
@@ -149,6 +194,7 @@ class E3:
         if outs is None:
             return
         self.exit_checks(b, outs, name)
+        self.list_ghost_checks(ip, b, outs, name)
         self.sub_checks(ip, name)
         self.insert_inv_checks(ip, name)
         self.eviction_checks(ip, b, name, arg_vals)
@@ -158,6 +204,7 @@ class E3:
             self.classify_mutate(b, outs, ip)
         if name in ("reserve", "try_reserve", "shrink_to", "shrink_to_fit"):
             self.capacity_checks(b, outs, name, arg_vals)
+        self.alloc_checks(ip, b, name, arg_vals)
         if name == "drain":
             pass
 
@@ -180,6 +227,51 @@ class E3:
             for eo, ev in s.store.items():
                 if eo[0] == "E" and ev[0] == "struct" and ev[1] == self.r.entry and ev[2].get("#tid") == cf["tid"] and cf["tid"] is not None:
                     pass
+
+    PROMOTING = ("insert", "try_insert", "get", "get_entry", "get_lru", "touch", "mutate")
+
+    def success(self, name, rv):
+        """does this exit report success (hit / inserted)?  None = cannot tell from the return value (touch)"""
+        sg = self.sig_str(rv)
+        if name in ("insert", "try_insert"):
+            return sg.startswith("Ok")
+        if name in ("get", "get_entry", "get_lru"):
+            return sg.startswith("Some")
+        if name == "mutate":
+            return sg == "Ok(Some)"
+        return None
+
+    def list_ghost_checks(self, ip, b, outs, name):
+        loc = span_str(b.span)
+        for (rv, s) in outs:
+            sig = self.sig_str(rv)
+            unl = ip.gset(s, "unlinked")
+            self.rec("C07", "%s:exit[%s]:inserted-entries-linked" % (name, sig), not unl,
+                     "when `%s` returns %s every entry it inserted into the cache's table has been linked into the list" % (name, sig), loc)
+            l2l = ip.gset(s, "l2l")
+            self.rec("C07", "%s:exit[%s]:no-link-into-unowned-table" % (name, sig), not l2l,
+                     "when `%s` returns %s no link points into a table the cache does not own" % (name, sig), loc)
+            may = ip.gset(s, "maypromoted")
+            must = ip.gset(s, "promoted")
+            found = ip.gset(s, "found")
+            if name in self.PROMOTING:
+                succ = self.success(name, rv)
+                if succ is False:
+                    self.rec("C05", "%s:exit[%s]:failure-does-not-promote" % (name, sig), not may,
+                             "when `%s` returns %s (miss / rejected) no entry has been moved in the recency order" % (name, sig), loc)
+                else:
+                    # every entry that a lookup found on this path must have been promoted (hit => most-recently-used)
+                    pending = [str(e) for e in ip.gset(s, "pending")]
+                    self.rec("C05", "%s:exit[%s]:hit-promotes" % (name, sig), not pending,
+                             "when `%s` returns %s the entry it found has been made most-recently-used on every path" % (name, sig), loc,
+                             {"found_but_not_promoted_on_some_path": pending} if pending else None)
+                    if succ is True and name in ("insert", "try_insert", "get_lru"):
+                        self.rec("C05", "%s:exit[%s]:success-promotes" % (name, sig), bool(must),
+                                 "when `%s` returns %s an entry has been linked at the most-recently-used end on every path" % (name, sig), loc)
+            else:
+                self.rec("C05", "%s:exit[%s]:does-not-promote" % (name, sig), not may,
+                         "`%s` never moves an entry to the most-recently-used end" % name, loc,
+                         {"may_promote": [str(x) for x in may]} if may else None)
 
     def sig_str(self, rv):
         sg = enum_sig(rv)
@@ -220,6 +312,12 @@ class E3:
     # ---- evictions
     def eviction_checks(self, ip, b, name, arg_vals):
         r = self.r
+        for info in [info for (k, info) in ip.events if k == "table_remove" and info.get("mru")]:
+            chain = "/".join(p.split("::")[-1] for p in info["chain"][-4:])
+            if name in ("insert", "mutate", "set_max_size", "try_insert"):
+                self.rec("C03", "%s:evicts-from-mru-end@%s" % (name, chain), False,
+                         "`%s` removes the entry at the most-recently-used end: eviction must take the least-recently-used entries first" % name,
+                         info["loc"])
         evs = [info for (k, info) in ip.events if k == "table_remove" and info.get("lru")]
         allowed = ("insert", "mutate", "set_max_size")
         explicit = ("remove_lru", "retain")    # removal of the LRU-side entry on request (remove_lru) / on the predicate's verdict (retain)
@@ -420,6 +518,51 @@ class E3:
             if name == "shrink_to" and len(arg_vals) > 1 and is_int(arg_vals[1]) and cf["cap"] is not None and is_int(cf["cap"]):
                 self.check("C13", "%s:exit[%s]:capacity" % (name, sig), s, [ge(cf["cap"][1], N0)],
                            "after shrink_to: capacity >= len", loc)
+
+    def alloc_checks(self, ip, b, name, arg_vals):
+        """what a (re)allocation of the cache's table asks for (C13.2 / C13.4)"""
+        evs = [info for (k, info) in ip.events if k == "table_alloc"]
+        for i, info in enumerate(evs):
+            st = info["state"]
+            cf = self.cache_fields(st)
+            chain = "/".join(p.split("::")[-1] for p in info["chain"][-3:])
+            req = info["request"]
+            key = "%s:alloc@%s" % (name, chain)
+            if cf is None:
+                continue
+            cap = cf["cap"][1] if (cf["cap"] is not None and is_int(cf["cap"])) else None
+            if name in ("shrink_to", "shrink_to_fit"):
+                if cap is None:
+                    self.rec("C13", key + ":shrinks", False, "`%s` reallocates without having read the current capacity" % name, info["loc"])
+                else:
+                    self.check("C13", key + ":shrinks", st, [lt(req, cap), ge(req, cf["N"])],
+                               "`%s` reallocates only to a capacity below the current one and not below len" % name, info["loc"])
+            elif name in ("insert", "try_insert"):
+                if cap is None:
+                    self.rec("C13", key + ":doubling", False, "automatic growth in `%s` without having read the current capacity" % name, info["loc"])
+                else:
+                    ok = st.num.feasible() and (st.num.entails(eq(req, cap.scale(2))) or
+                                                (st.num.entails(eq(cap, 0)) and st.num.entails(eq(req, 1))))
+                    if not ok and st.num.feasible() and len(req.t) == 1 and req.c == 0:
+                        (sname, coef), = req.t.items()
+                        md = st.store.get(("M", sname))
+                        if md is not None and coef == 1:
+                            x, y = md
+                            two = cap.scale(2)
+                            ok = (st.num.entails(eq(x, two)) and st.num.entails(eq(y, 1))) or \
+                                 (st.num.entails(eq(y, two)) and st.num.entails(eq(x, 1)))
+                    ok = ok and st.num.entails(eq(cap, cf["N"]))
+                    self.rec("C13", key + ":doubling", ok or not st.num.feasible(),
+                             "automatic growth in `%s` happens only when capacity = len (the no-grow insert failed) and requests "
+                             "max(2 * capacity, 1)" % name, info["loc"], None if ok else {"request": str(req), "capacity": str(cap)})
+            elif name in ("reserve", "try_reserve"):
+                add = arg_vals[1][1] if len(arg_vals) > 1 and is_int(arg_vals[1]) else None
+                if add is not None:
+                    self.check("C13", key + ":request", st, [ge(req, cf["N"] + add)] + ([gt(req, cap)] if cap is not None else []),
+                               "`%s` reallocates only when capacity < len + additional and requests at least len + additional" % name, info["loc"])
+            elif name not in ("clear",):
+                self.rec("C13", key + ":unexpected-reallocation", False,
+                         "`%s` allocates a new table (only reserve, try_reserve, shrink_to, shrink_to_fit and growing insertions may)" % name, info["loc"])
 
     # ---- constructors
     def run_constructor(self, b):
